@@ -670,7 +670,13 @@ def apply_mono(text, d, em, is_sig=False):
         if is_sig:
             # drop the generic parameter declaration `<T: Bound>` / `<T>`
             text = re.sub(r"<\s*%s\s*(:[^<>]*(<[^<>]*>[^<>]*)*)?>" % re.escape(var), "", text, count=1)
-        text = re.sub(r"(?<![A-Za-z0-9_])%s(?![A-Za-z0-9_])" % re.escape(var), ty, text)
+        # replace identifiers only: matches are located on the masked text (comments, string and char literals blanked)
+        masked = mask_source(text)
+        pieces, cur = [], 0
+        for m in re.finditer(r"(?<![A-Za-z0-9_])%s(?![A-Za-z0-9_])" % re.escape(var), masked):
+            pieces.append(text[cur:m.start()]); pieces.append(ty); cur = m.end()
+        pieces.append(text[cur:])
+        text = "".join(pieces)
         em.rules.add("E8")
     for (_, ty) in d.get("selftype"):
         text = re.sub(r"(?<![A-Za-z0-9_])Self(?![A-Za-z0-9_])", ty.strip(), text)
